@@ -5,8 +5,8 @@ SPECIFICATION Spec
 CONSTANTS
   Ctx = {"c1", "c2", "c3"}
   Shared = FALSE
-  MaxLens <- ML111
-  OnlyRelated = FALSE
+  MaxLens <- ML210
+  OnlyRelated = TRUE
   Seeds <- AllSeeds
   Cases <- AllCases
   Policies <- Both
